@@ -49,7 +49,7 @@ class Cfg:
         self.forms = forms or ["attr", "attr", "call", "mcall", "mcall", "sub", "unary", "not", "bin", "bool", "cmp", "ifexp", "tuple",
                                "list", "dict", "lambda", "const", "name", "opcall"]
         self.max_args = max_args
-        self.dict_keys = dict_keys or ["a", "b", "pt", "a b", "class", "", "1x", "id", "value", "pt  GeV", " a", "a  "]
+        self.dict_keys = dict_keys or ["a", "b", "pt", "a b", "class", "", "1x", "id", "value", "pt  GeV", " a", "a  ", "\uff41", "**"]
 
 
 @st.composite
@@ -106,7 +106,8 @@ def expr(draw, depth, bound, cfg: Cfg):
         return "[" + ", ".join(sub() for _ in range(draw(st.integers(0, 3)))) + "]"
     if form == "dict":
         keys = draw(st.lists(st.sampled_from(cfg.dict_keys), max_size=3, unique=True))
-        return "{" + ", ".join(f"{k!r}: {sub()}" for k in keys) + "}"
+        # "\uff41" is an identifier that python normalizes to "a"; "**" stands for a mapping unpacked into the literal
+        return "{" + ", ".join((f"**{_paren(sub())}" if k == "**" else f"{k!r}: {sub()}") for k in keys) + "}"
     if form == "lambda":
         p = draw(st.sampled_from(cfg.vars))
         body = draw(expr(d, bound + [p], cfg))
